@@ -1095,4 +1095,131 @@ theorem reindex_perm (pts : List (Pt ℝ)) (σ : Equiv.Perm (Fin pts.length)) :
 
 end restated
 
+/-! ## `topk(sorted=False)`: the contract without the order clause (pass 7) -/
+
+/-- `idx` is a valid answer of `topk(k, sorted=False)`: `TopkSpec` without the order clause -/
+structure TopkSpecU (r : ℝ → ℝ → Prop) (vals : List ℝ) (kk : Nat) (idx : List Nat) : Prop where
+  len : idx.length = kk
+  nodup : idx.Nodup
+  inb : ∀ i ∈ idx, i < vals.length
+  least : ∀ i ∈ idx, ∀ j, j < vals.length → j ∉ idx → r (vals.getD i 0) (vals.getD j 0)
+
+theorem TopkSpec.toU {r vals kk idx} (h : TopkSpec r vals kk idx) : TopkSpecU r vals kk idx :=
+  ⟨h.len, h.nodup, h.inb, h.least⟩
+
+theorem topkOkUnsorted_iff (largest : Bool) (vals : List ℝ) (kk : Nat) (idx : List Nat) :
+    topkOkUnsorted largest vals kk idx = true ↔ TopkSpecU (ordRel largest) vals kk idx := by
+  unfold topkOkUnsorted
+  simp only [Bool.and_eq_true, beq_iff_eq, List.all_eq_true, decide_eq_true_eq, k0_real,
+    List.mem_range, Bool.or_eq_true, List.contains_iff_mem, leB_iff]
+  constructor
+  · rintro ⟨⟨⟨h1, h2⟩, h3⟩, h5⟩
+    refine ⟨h1, h3, h2, ?_⟩
+    intro i hi j hj hnot
+    rcases h5 i hi j hj with h | h
+    · exact absurd h hnot
+    · exact h
+  · rintro ⟨h1, h2, h3, h5⟩
+    refine ⟨⟨⟨h1, h3⟩, h2⟩, ?_⟩
+    intro i hi j hj
+    by_cases hm : j ∈ idx
+    · exact Or.inl hm
+    · exact Or.inr (h5 i hi j hj hm)
+
+/-- the values selected by an UNSORTED `topk` are, as a multiset, the first `k` of the sorted list of all values -/
+theorem TopkSpecU.values_perm {lg : Bool} {vals : List ℝ} {kk : Nat} {idx : List Nat}
+    (h : TopkSpecU (ordRel lg) vals kk idx) :
+    (idx.map fun i => vals.getD i 0).Perm ((sortVals lg vals).take kk) := by
+  set v := fun i => vals.getD i 0 with hv
+  set rest := (List.range vals.length).filter (fun j => decide (j ∉ idx)) with hrest
+  have hnd : (idx ++ rest).Nodup := by
+    apply List.Nodup.append h.nodup (List.Nodup.filter _ List.nodup_range)
+    intro a ha hb
+    simp only [List.mem_filter, decide_eq_true_eq] at hb
+    exact hb.2 ha
+  have hperm : (idx ++ rest).Perm (List.range vals.length) := by
+    rw [List.perm_ext_iff_of_nodup hnd List.nodup_range]
+    intro a
+    simp only [hrest, List.mem_append, List.mem_filter, List.mem_range, decide_eq_true_eq]
+    constructor
+    · rintro (ha | ha)
+      · exact h.inb a ha
+      · exact ha.1
+    · intro ha
+      by_cases hm : a ∈ idx
+      · exact Or.inl hm
+      · exact Or.inr ⟨ha, hm⟩
+  have hvals : (sortVals lg (idx.map v) ++ sortVals lg (rest.map v)).Perm vals := by
+    have h1 : ((idx ++ rest).map v).Perm ((List.range vals.length).map v) := hperm.map v
+    rw [map_getD_range, List.map_append] at h1
+    exact ((sortVals_perm lg _).append (sortVals_perm lg _)).trans h1
+  have hsorted : (sortVals lg (idx.map v) ++ sortVals lg (rest.map v)).Pairwise (ordRel lg) := by
+    rw [List.pairwise_append]
+    refine ⟨sortVals_pairwise lg _, sortVals_pairwise lg _, ?_⟩
+    intro a ha b hb
+    have ha' : a ∈ idx.map v := (sortVals_perm lg _).subset ha
+    have hb' : b ∈ rest.map v := (sortVals_perm lg _).subset hb
+    simp only [List.mem_map] at ha' hb'
+    obtain ⟨i, hi, rfl⟩ := ha'
+    obtain ⟨j, hj, rfl⟩ := hb'
+    simp only [hrest, List.mem_filter, List.mem_range, decide_eq_true_eq] at hj
+    exact h.least i hi j hj.1 hj.2
+  have heq : sortVals lg vals = sortVals lg (idx.map v) ++ sortVals lg (rest.map v) :=
+    sorted_perm_unique lg (sortVals_pairwise lg vals) hsorted ((sortVals_perm lg vals).trans hvals.symm)
+  rw [heq, List.take_left']
+  · exact (sortVals_perm lg _).symm
+  · rw [(sortVals_perm lg _).length_eq]; simp [h.len]
+
+/-- the unsorted kernel meets its contract -/
+def TopkContractU (topkU : Bool → List ℝ → Nat → List Nat) : Prop :=
+  ∀ lg vals kk, kk ≤ vals.length → TopkSpecU (ordRel lg) vals kk (topkU lg vals kk)
+
+/-! ## the admissible choices under a gap / with ties (pass 7) -/
+
+/-- the brute-force choice (sort by distance, take `m`) is always admissible -/
+theorem nearest_admissible (o : Norm) (pdim m : Nat) (pts : List (Pt ℝ)) (p : Pt ℝ) (hm : m ≤ pts.length) :
+    Admissible o pdim m pts p (nearest o pdim m pts p) := by
+  set f := pdist o pdim p
+  set S := pts.mergeSort fun a b => leB false (f a) (f b) with hS
+  have hSp : S.Perm pts := List.mergeSort_perm _ _
+  refine ⟨by simp [nearest, hm], S.drop m, ?_, ?_⟩
+  · unfold nearest; rw [List.take_append_drop]; exact hSp
+  · intro a ha b hb
+    have hsorted : S.Pairwise (fun a b => leB false (f a) (f b) = true) :=
+      List.pairwise_mergeSort (le := fun a b => leB false (f a) (f b))
+        (fun a b c => leB_trans false (f a) (f b) (f c)) (fun a b => leB_total false (f a) (f b)) pts
+    rw [← List.take_append_drop m S, List.pairwise_append] at hsorted
+    have := hsorted.2.2 a ha b hb
+    simpa [leB_iff, ordRel] using this
+
+/-- with a strict gap at the cut there is exactly one admissible choice (as a multiset): the brute-force `nearest` -/
+theorem admissible_unique_of_gap (o : Norm) (pdim m : Nat) (pts : List (Pt ℝ)) (p : Pt ℝ) (hg : CutGap o pdim m pts p)
+    (L : List (Pt ℝ)) (hL : Admissible o pdim m pts p L) : L.Perm (nearest o pdim m pts p) := by
+  obtain ⟨hlen, R, hperm, hle⟩ := hL
+  set f := pdist o pdim p
+  set L' := L.mergeSort fun a b => leB false (f a) (f b) with hL'
+  have hL'p : L'.Perm L := List.mergeSort_perm _ _
+  have hsorted : (sortVals false (L.map f) ++ sortVals false (R.map f)).Pairwise (ordRel false) := by
+    rw [List.pairwise_append]
+    refine ⟨sortVals_pairwise false _, sortVals_pairwise false _, ?_⟩
+    intro a ha b hb
+    have ha' : a ∈ L.map f := (sortVals_perm false _).subset ha
+    have hb' : b ∈ R.map f := (sortVals_perm false _).subset hb
+    simp only [List.mem_map] at ha' hb'
+    obtain ⟨x, hx, rfl⟩ := ha'
+    obtain ⟨y, hy, rfl⟩ := hb'
+    simpa [ordRel] using hle x hx y hy
+  have hvals : (sortVals false (L.map f) ++ sortVals false (R.map f)).Perm (pts.map f) := by
+    have h1 := hperm.map f
+    rw [List.map_append] at h1
+    exact ((sortVals_perm false _).append (sortVals_perm false _)).trans h1
+  have key : sortVals false (pts.map f) = sortVals false (L.map f) ++ sortVals false (R.map f) :=
+    sorted_perm_unique false (sortVals_pairwise false _) hsorted ((sortVals_perm false _).trans hvals.symm)
+  refine hL'p.symm.trans ?_
+  unfold nearest
+  apply gap_perm f pts _ L' m (List.mergeSort_perm _ _) hg
+  · exact hL'p.subperm.trans (((List.sublist_append_left L R).subperm).trans hperm.subperm)
+  · rw [map_sort_key, List.map_take, map_sort_key, key, List.take_left']
+    rw [(sortVals_perm false _).length_eq]; simp [hlen]
+
 end PP.Cloud
